@@ -21,25 +21,32 @@ pub const I8_TYPES: [&str; 16] = [
 ];
 pub const F_TYPES: [&str; 8] = ["Phif64", "Phif32", "Tanhf64", "Tanhf32", "Minstarapproxf64", "Minstarapproxf32", "Aminstarf64", "Aminstarf32"];
 
+/// the arithmetic objects are built alternately with `new()` and with `Default::default()` (both are public ways to get one)
+fn flip() -> bool {
+    use std::sync::atomic::{AtomicBool, Ordering};
+    static F: AtomicBool = AtomicBool::new(false);
+    F.fetch_xor(true, Ordering::Relaxed)
+}
+
 macro_rules! with_i8 {
     ($name:expr, $a:ident => $body:expr) => {
         match $name {
-            "Minstarapproxi8" => { let mut $a = Minstarapproxi8::new(); $body }
-            "Minstarapproxi8Jones" => { let mut $a = Minstarapproxi8Jones::new(); $body }
-            "Minstarapproxi8PartialHardLimit" => { let mut $a = Minstarapproxi8PartialHardLimit::new(); $body }
-            "Minstarapproxi8JonesPartialHardLimit" => { let mut $a = Minstarapproxi8JonesPartialHardLimit::new(); $body }
-            "Minstarapproxi8Deg1Clip" => { let mut $a = Minstarapproxi8Deg1Clip::new(); $body }
-            "Minstarapproxi8JonesDeg1Clip" => { let mut $a = Minstarapproxi8JonesDeg1Clip::new(); $body }
-            "Minstarapproxi8PartialHardLimitDeg1Clip" => { let mut $a = Minstarapproxi8PartialHardLimitDeg1Clip::new(); $body }
-            "Minstarapproxi8JonesPartialHardLimitDeg1Clip" => { let mut $a = Minstarapproxi8JonesPartialHardLimitDeg1Clip::new(); $body }
-            "Aminstari8" => { let mut $a = Aminstari8::new(); $body }
-            "Aminstari8Jones" => { let mut $a = Aminstari8Jones::new(); $body }
-            "Aminstari8PartialHardLimit" => { let mut $a = Aminstari8PartialHardLimit::new(); $body }
-            "Aminstari8JonesPartialHardLimit" => { let mut $a = Aminstari8JonesPartialHardLimit::new(); $body }
-            "Aminstari8Deg1Clip" => { let mut $a = Aminstari8Deg1Clip::new(); $body }
-            "Aminstari8JonesDeg1Clip" => { let mut $a = Aminstari8JonesDeg1Clip::new(); $body }
-            "Aminstari8PartialHardLimitDeg1Clip" => { let mut $a = Aminstari8PartialHardLimitDeg1Clip::new(); $body }
-            "Aminstari8JonesPartialHardLimitDeg1Clip" => { let mut $a = Aminstari8JonesPartialHardLimitDeg1Clip::new(); $body }
+            "Minstarapproxi8" => { let mut $a = if flip() { Minstarapproxi8::new() } else { <Minstarapproxi8 as Default>::default() }; $body }
+            "Minstarapproxi8Jones" => { let mut $a = if flip() { Minstarapproxi8Jones::new() } else { <Minstarapproxi8Jones as Default>::default() }; $body }
+            "Minstarapproxi8PartialHardLimit" => { let mut $a = if flip() { Minstarapproxi8PartialHardLimit::new() } else { <Minstarapproxi8PartialHardLimit as Default>::default() }; $body }
+            "Minstarapproxi8JonesPartialHardLimit" => { let mut $a = if flip() { Minstarapproxi8JonesPartialHardLimit::new() } else { <Minstarapproxi8JonesPartialHardLimit as Default>::default() }; $body }
+            "Minstarapproxi8Deg1Clip" => { let mut $a = if flip() { Minstarapproxi8Deg1Clip::new() } else { <Minstarapproxi8Deg1Clip as Default>::default() }; $body }
+            "Minstarapproxi8JonesDeg1Clip" => { let mut $a = if flip() { Minstarapproxi8JonesDeg1Clip::new() } else { <Minstarapproxi8JonesDeg1Clip as Default>::default() }; $body }
+            "Minstarapproxi8PartialHardLimitDeg1Clip" => { let mut $a = if flip() { Minstarapproxi8PartialHardLimitDeg1Clip::new() } else { <Minstarapproxi8PartialHardLimitDeg1Clip as Default>::default() }; $body }
+            "Minstarapproxi8JonesPartialHardLimitDeg1Clip" => { let mut $a = if flip() { Minstarapproxi8JonesPartialHardLimitDeg1Clip::new() } else { <Minstarapproxi8JonesPartialHardLimitDeg1Clip as Default>::default() }; $body }
+            "Aminstari8" => { let mut $a = if flip() { Aminstari8::new() } else { <Aminstari8 as Default>::default() }; $body }
+            "Aminstari8Jones" => { let mut $a = if flip() { Aminstari8Jones::new() } else { <Aminstari8Jones as Default>::default() }; $body }
+            "Aminstari8PartialHardLimit" => { let mut $a = if flip() { Aminstari8PartialHardLimit::new() } else { <Aminstari8PartialHardLimit as Default>::default() }; $body }
+            "Aminstari8JonesPartialHardLimit" => { let mut $a = if flip() { Aminstari8JonesPartialHardLimit::new() } else { <Aminstari8JonesPartialHardLimit as Default>::default() }; $body }
+            "Aminstari8Deg1Clip" => { let mut $a = if flip() { Aminstari8Deg1Clip::new() } else { <Aminstari8Deg1Clip as Default>::default() }; $body }
+            "Aminstari8JonesDeg1Clip" => { let mut $a = if flip() { Aminstari8JonesDeg1Clip::new() } else { <Aminstari8JonesDeg1Clip as Default>::default() }; $body }
+            "Aminstari8PartialHardLimitDeg1Clip" => { let mut $a = if flip() { Aminstari8PartialHardLimitDeg1Clip::new() } else { <Aminstari8PartialHardLimitDeg1Clip as Default>::default() }; $body }
+            "Aminstari8JonesPartialHardLimitDeg1Clip" => { let mut $a = if flip() { Aminstari8JonesPartialHardLimitDeg1Clip::new() } else { <Aminstari8JonesPartialHardLimitDeg1Clip as Default>::default() }; $body }
             other => panic!("unknown i8 type {}", other),
         }
     };
@@ -48,10 +55,10 @@ macro_rules! with_i8 {
 macro_rules! with_f64 {
     ($name:expr, $a:ident => $body:expr) => {
         match $name {
-            "Phif64" => { let mut $a = Phif64::new(); $body }
-            "Tanhf64" => { let mut $a = Tanhf64::new(); $body }
-            "Minstarapproxf64" => { let mut $a = Minstarapproxf64::new(); $body }
-            "Aminstarf64" => { let mut $a = Aminstarf64::new(); $body }
+            "Phif64" => { let mut $a = if flip() { Phif64::new() } else { <Phif64 as Default>::default() }; $body }
+            "Tanhf64" => { let mut $a = if flip() { Tanhf64::new() } else { <Tanhf64 as Default>::default() }; $body }
+            "Minstarapproxf64" => { let mut $a = if flip() { Minstarapproxf64::new() } else { <Minstarapproxf64 as Default>::default() }; $body }
+            "Aminstarf64" => { let mut $a = if flip() { Aminstarf64::new() } else { <Aminstarf64 as Default>::default() }; $body }
             other => panic!("unknown f64 type {}", other),
         }
     };
@@ -60,10 +67,10 @@ macro_rules! with_f64 {
 macro_rules! with_f32 {
     ($name:expr, $a:ident => $body:expr) => {
         match $name {
-            "Phif32" => { let mut $a = Phif32::new(); $body }
-            "Tanhf32" => { let mut $a = Tanhf32::new(); $body }
-            "Minstarapproxf32" => { let mut $a = Minstarapproxf32::new(); $body }
-            "Aminstarf32" => { let mut $a = Aminstarf32::new(); $body }
+            "Phif32" => { let mut $a = if flip() { Phif32::new() } else { <Phif32 as Default>::default() }; $body }
+            "Tanhf32" => { let mut $a = if flip() { Tanhf32::new() } else { <Tanhf32 as Default>::default() }; $body }
+            "Minstarapproxf32" => { let mut $a = if flip() { Minstarapproxf32::new() } else { <Minstarapproxf32 as Default>::default() }; $body }
+            "Aminstarf32" => { let mut $a = if flip() { Aminstarf32::new() } else { <Aminstarf32 as Default>::default() }; $body }
             other => panic!("unknown f32 type {}", other),
         }
     };
@@ -457,9 +464,9 @@ pub fn run_c05(ctx: &mut Ctx, _replay: Option<&[String]>) {
             // a quarter of the updates with exact magnitude TIES among the extrinsic values (hard-decision-like inputs: the
             // least reliable neighbour of A-Min* is then the FIRST of the tied ones, in the layered rule as in the flooding rule)
             let ties = rng.chance(1, 4);
-            let msgs: Vec<(usize, f64)> = dests.iter().map(|&d| (d, if ties { *rng.pick(&[0.0, 0.0, 0.5, -0.5]) } else { 0.5 * rand_f(&mut rng, ty, style) })).collect();
+            let msgs: Vec<(usize, f64)> = dests.iter().map(|&d| (d, if ties { *rng.pick(&[0.0, 0.0, -0.0, 0.5, -0.5]) } else { 0.5 * rand_f(&mut rng, ty, style) })).collect();
             // (the tie variant also produces exact-zero extrinsic values: var 0.5 with old message 0.5, or an erased bit 0.0 - 0.0)
-            let vars: Vec<f64> = (0..nvars).map(|_| if ties { *rng.pick(&[1.0, -1.0, 1.5, -1.5, 3.0, -3.0, 0.5, 0.0]) } else { rand_f(&mut rng, ty, style) }).collect();
+            let vars: Vec<f64> = (0..nvars).map(|_| if ties { *rng.pick(&[1.0, -1.0, 1.5, -1.5, 3.0, -3.0, 0.5, 0.0, -0.0]) } else { rand_f(&mut rng, ty, style) }).collect();
             calls.push((msgs, vars));
         }
         let input: Vec<String> = calls.iter().map(|(m, v)| format!("{} {}", pairs_f(m), fs(v))).collect();
